@@ -1032,19 +1032,33 @@ func runC14ProcSSH(c *fw.Case) {
 		c.HarnessError("%v", err)
 		return
 	}
+	// the remote side may keep its chunks uncompressed (store-options in the config file `desync pull` reads)
+	remoteCmd := desyncBin()
+	uncRemote := c.Chance(1, 3, "ssh.remote.uncompressed")
+	if uncRemote {
+		os.RemoveAll(storeDir)
+		for _, ch := range idx.Chunks {
+			f := chunkFile(storeDir, ch.ID, true)
+			os.MkdirAll(filepath.Dir(f), 0755)
+			os.WriteFile(f, blob[ch.Start:ch.Start+ch.Size], 0644)
+		}
+		cfgFile := filepath.Join(c.Dir(), "remote-config.json")
+		os.WriteFile(cfgFile, []byte(fmt.Sprintf(`{"store-options": {%q: {"uncompressed": true}}}`, storeDir)), 0644)
+		remoteCmd += " --config " + cfgFile
+	}
 	cut := -1
 	if c.Chance(1, 3, "ssh.cut") {
 		cut = c.Draw(len(blob)+400, "ssh.cut.at")
 		c.Fault("ssh-link-dies-mid-stream")
 	}
 	n := c.Range(1, 4, "ssh.n")
-	env := []string{"CASYNC_SSH_PATH=" + exe, "VERIF_SSH_SHIM=1", "CASYNC_REMOTE_PATH=" + desyncBin(), "VERIF_SSH_CUT=" + strconv.Itoa(cut)}
+	env := []string{"CASYNC_SSH_PATH=" + exe, "VERIF_SSH_SHIM=1", "CASYNC_REMOTE_PATH=" + remoteCmd, "VERIF_SSH_CUT=" + strconv.Itoa(cut)}
 	u := "ssh://verif@remotehost" + storeDir
 	c.NonTrivial()
 	if c.Bool("ssh.binary") {
 		// real binary as client
 		cache := c.Bool("ssh.cache")
-		c.Class(fmt.Sprintf("cli ssh client=binary cache=%v n=%d cut=%v", cache, n, cut >= 0))
+		c.Class(fmt.Sprintf("cli ssh client=binary cache=%v n=%d cut=%v unc-remote=%v", cache, n, cut >= 0, uncRemote))
 		out := filepath.Join(c.Dir(), "out")
 		cacheDir := filepath.Join(c.Dir(), "cache.d")
 		os.MkdirAll(cacheDir, 0755)
@@ -1108,12 +1122,12 @@ func runC14ProcSSH(c *fw.Case) {
 		seen[ch.ID] = true
 		o := obj{id: ch.ID, data: blob[ch.Start : ch.Start+ch.Size], present: true}
 		if c.Chance(1, 4, "ssh.missing") {
-			os.Remove(chunkFile(storeDir, ch.ID, false))
+			os.Remove(chunkFile(storeDir, ch.ID, uncRemote))
 			o.present = false
 		}
 		objs = append(objs, o)
 	}
-	c.Class(fmt.Sprintf("cli ssh client=library n=%d cut=%v", n, cut >= 0))
+	c.Class(fmt.Sprintf("cli ssh client=library n=%d cut=%v unc-remote=%v", n, cut >= 0, uncRemote))
 	for _, kv := range env {
 		k, v, _ := strings.Cut(kv, "=")
 		os.Setenv(k, v)
@@ -1376,4 +1390,327 @@ func runC04Proc(c *fw.Case) {
 		}
 	}
 	c.Outcome("ok")
+}
+
+// ---- C11 at process level: the chains the command line builds ----
+
+// procMember is one store location given to the real binary: a local directory or a loopback HTTP server.
+type procMember struct {
+	name    string
+	http    bool
+	status  int   // 0 healthy, 1 answers 503 to everything, 2 dead (connection refused)
+	content []int // per chunk: 0 present, 1 missing, 2 invalid (a valid object of other data under the chunk's name)
+	g       *gateServer
+	dir     string
+	want    []string // requests the policy predicts (HTTP members that answer)
+}
+
+func (m *procMember) location() string {
+	if m.http {
+		return m.g.url()
+	}
+	return m.dir
+}
+
+// get is the documented outcome of asking this member: "ok", "missing" or "error".
+func (m *procMember) get(i int, path string) string {
+	if m.http && m.status == 2 {
+		return "error"
+	}
+	if m.http {
+		m.want = append(m.want, path)
+	}
+	if m.http && m.status == 1 {
+		return "error"
+	}
+	return []string{"ok", "missing", "error"}[m.content[i]]
+}
+
+type procGroup struct {
+	members []*procMember
+	active  int
+}
+
+func (g *procGroup) get(i int, path string) string {
+	for k := 0; k < len(g.members); k++ {
+		switch r := g.members[g.active].get(i, path); r {
+		case "ok", "missing":
+			return r // all members are meant to hold the same chunks: a missing chunk is not failed over
+		}
+		g.active = (g.active + 1) % len(g.members)
+	}
+	return "error"
+}
+
+func runC11Proc(c *fw.Case) {
+	c.Probe("process-level-case (real desync binary)")
+	sz := sizes{64, 256, 1024}
+	r := c.Rand("blob.seed")
+	blob := make([]byte, (3+r.IntN(10))*int(sz.avg))
+	for i := range blob {
+		blob[i] = byte(r.IntN(256))
+	}
+	idx := mkIndex(blob, sz)
+	n := len(idx.Chunks)
+	seen := map[desync.ChunkID]bool{}
+	for _, ch := range idx.Chunks {
+		if seen[ch.ID] {
+			c.Outcome("duplicate-chunks-skip")
+			return
+		}
+		seen[ch.ID] = true
+	}
+	if n == 0 {
+		c.Outcome("empty")
+		return
+	}
+	other := func(i int) []byte { return []byte(fmt.Sprintf("not chunk %d of this blob", i)) }
+	paths := make([]string, n)
+	for i, ch := range idx.Chunks {
+		s := ch.ID.String()
+		paths[i] = "/" + s[:4] + "/" + s + ".cacnk"
+	}
+	var groups []*procGroup
+	var all []*procMember
+	defer func() {
+		for _, m := range all {
+			if m.g != nil {
+				m.g.close()
+			}
+		}
+	}()
+	ng := c.Range(1, 3, "chain.stores")
+	lucky := -1
+	if c.Bool("chain.lucky") {
+		lucky = c.Draw(ng, "chain.lucky.at") // one group whose first member is complete and healthy
+	}
+	for gi := 0; gi < ng; gi++ {
+		g := &procGroup{}
+		nm := []int{1, 1, 1, 2, 2, 3}[c.Draw(6, "group.size")]
+		for mi := 0; mi < nm; mi++ {
+			m := &procMember{name: fmt.Sprintf("s%d.%d", gi, mi), http: c.Chance(2, 3, "member.http"), content: make([]int, n)}
+			if m.http {
+				m.status = []int{0, 0, 0, 1, 2}[c.Draw(5, "member.status")]
+			}
+			for i := range m.content {
+				m.content[i] = []int{0, 0, 0, 0, 0, 0, 1, 1, 1, 2}[c.Draw(10, "member.content")]
+			}
+			if gi == lucky && mi == 0 {
+				m.status = 0
+				for i := range m.content {
+					m.content[i] = 0
+				}
+			}
+			if m.http {
+				g2, err := newGateServer(false)
+				if err != nil {
+					c.HarnessError("%v", err)
+					return
+				}
+				m.g = g2
+				for i, ch := range idx.Chunks {
+					switch m.content[i] {
+					case 0:
+						g2.addChunk(blob[ch.Start : ch.Start+ch.Size])
+					case 2:
+						z, _ := desync.Compress(other(i))
+						g2.chunks[paths[i]] = z
+					}
+				}
+				if m.status == 1 {
+					g2.failFirst = 1 << 30
+				}
+			} else {
+				m.dir = filepath.Join(c.Dir(), m.name+".store")
+				os.MkdirAll(m.dir, 0755)
+				for i, ch := range idx.Chunks {
+					f := chunkFile(m.dir, ch.ID, false)
+					os.MkdirAll(filepath.Dir(f), 0755)
+					switch m.content[i] {
+					case 0:
+						z, _ := desync.Compress(blob[ch.Start : ch.Start+ch.Size])
+						os.WriteFile(f, z, 0644)
+					case 2:
+						z, _ := desync.Compress(other(i))
+						os.WriteFile(f, z, 0644)
+					}
+				}
+			}
+			g.members = append(g.members, m)
+			all = append(all, m)
+		}
+		groups = append(groups, g)
+	}
+	// cache
+	cacheMode := c.Draw(3, "cache.mode") // 0 none, 1 with repair (the default), 2 --cache-repair=false
+	cacheDir := filepath.Join(c.Dir(), "cache.d")
+	cache := make([]int, n) // 1 missing, 0 valid, 2 invalid
+	for i := range cache {
+		cache[i] = 1
+	}
+	if cacheMode != 0 {
+		os.MkdirAll(cacheDir, 0755)
+		for i, ch := range idx.Chunks {
+			cache[i] = []int{1, 1, 1, 0, 0, 2}[c.Draw(6, "cache.content")]
+			f := chunkFile(cacheDir, ch.ID, false)
+			os.MkdirAll(filepath.Dir(f), 0755)
+			switch cache[i] {
+			case 0:
+				z, _ := desync.Compress(blob[ch.Start : ch.Start+ch.Size])
+				os.WriteFile(f, z, 0644)
+			case 2:
+				z, _ := desync.Compress(other(i))
+				os.WriteFile(f, z, 0644)
+			}
+		}
+	}
+	// dead members stop listening now, their address stays in the command line
+	var locs []string
+	for _, g := range groups {
+		var ms []string
+		for _, m := range g.members {
+			ms = append(ms, m.location())
+			if m.http && m.status == 2 {
+				m.g.close()
+			}
+		}
+		locs = append(locs, strings.Join(ms, "|"))
+	}
+	// the documented policy, request by request in index order
+	expect := "ok"
+	failedAt := -1
+	for i := 0; i < n && expect == "ok"; i++ {
+		switch {
+		case cacheMode != 0 && cache[i] == 0:
+			continue // served from the cache, upstream untouched
+		case cacheMode == 2 && cache[i] == 2:
+			expect, failedAt = "error", i // an invalid cached chunk without repair is an error
+			continue
+		}
+		res := "missing"
+		for _, g := range groups {
+			if res = g.get(i, paths[i]); res != "missing" {
+				break
+			}
+		}
+		if res != "ok" {
+			expect, failedAt = res, i
+		}
+	}
+	useExtract := c.Bool("cli.extract")
+	out := filepath.Join(c.Dir(), "out")
+	args := []string{"cat", "-n", "1", "-e", "0", "-b", "1ms"}
+	if useExtract {
+		args = []string{"extract", "-n", "1", "-e", "0", "-b", "1ms"}
+	}
+	for _, l := range locs {
+		args = append(args, "-s", l)
+	}
+	switch cacheMode {
+	case 1:
+		args = append(args, "-c", cacheDir)
+	case 2:
+		args = append(args, "-c", cacheDir, "--cache-repair=false")
+	}
+	indexFile := filepath.Join(c.Dir(), "blob.caibx")
+	writeIndexFile(indexFile, idx)
+	args = append(args, indexFile, out)
+	desc := func() string {
+		var b strings.Builder
+		for gi, g := range groups {
+			for _, m := range g.members {
+				fmt.Fprintf(&b, " %s[http=%v status=%d content=%v]", m.name, m.http, m.status, m.content)
+			}
+			if gi < len(groups)-1 {
+				b.WriteString(" ;")
+			}
+		}
+		fmt.Fprintf(&b, " cache(mode=%d)=%v", cacheMode, cache)
+		return b.String()
+	}
+	c.Class(fmt.Sprintf("cli chain stores=%d members=%d cache=%d extract=%v expect=%s", len(groups), len(all), cacheMode, useExtract, expect))
+	c.Note("real `desync %s`;%s; policy says %s (chunk %d)", strings.Join(args, " "), desc(), expect, failedAt)
+	c.NonTrivial()
+	for _, m := range all {
+		if m.status != 0 || !m.http {
+			continue
+		}
+		for _, v := range m.content {
+			if v != 0 {
+				c.Fault("member-chunk-missing-or-invalid")
+				break
+			}
+		}
+	}
+	for _, m := range all {
+		switch m.status {
+		case 1:
+			c.Fault("member-answers-503")
+		case 2:
+			c.Fault("member-dead")
+		}
+	}
+	exit, _, stderr, err := runDesyncEnv(nil, 120*time.Second, args...)
+	if errors.Is(err, errProcTimeout) {
+		c.Probe("procsim-timeout-case-dropped")
+		return
+	}
+	if err != nil {
+		c.HarnessError("%v", err)
+		return
+	}
+	c.SubEval(1)
+	site := "desync " + args[0] + " (store chain)"
+	if expect == "ok" {
+		if exit != 0 {
+			c.Violate("policy-violation", site, "the documented policy serves every chunk (%s), yet exit %d: %s", desc(), exit, tailBytes(stderr, 300))
+			return
+		}
+		got, rerr := os.ReadFile(out)
+		if rerr != nil || !bytes.Equal(got, blob) {
+			c.Violate("wrong-data", site, "exit 0 but the output (%d bytes, %v) is not the blob (%d bytes)", len(got), rerr, len(blob))
+			return
+		}
+	} else if exit == 0 {
+		got, _ := os.ReadFile(out)
+		c.Violate("policy-violation", site, "the documented policy ends in %q at chunk %d (%s), yet exit 0 (output equals the blob: %v)", expect, failedAt, desc(), bytes.Equal(got, blob))
+		return
+	}
+	// requests seen by the members that answer: exactly those the policy predicts, in order (cat and extract -n 1
+	// ask for the chunks one at a time in index order)
+	for _, m := range all {
+		if !m.http || m.status == 2 {
+			continue
+		}
+		got := m.g.requests("GET")
+		if strings.Join(got, " ") != strings.Join(m.want, " ") {
+			c.Violate("policy-violation", site+"/requests", "member %s saw %d request(s), the documented policy predicts %d (%s): saw %v want %v", m.name, len(got), len(m.want), desc(), shortPaths(got), shortPaths(m.want))
+			return
+		}
+	}
+	// after a success the cache holds every chunk, valid
+	if expect == "ok" && cacheMode != 0 {
+		ls, _ := desync.NewLocalStore(cacheDir, desync.StoreOptions{})
+		for i, ch := range idx.Chunks {
+			if cacheMode == 2 && cache[i] == 2 {
+				continue
+			}
+			if _, err := ls.GetChunk(ch.ID); err != nil {
+				c.Violate("policy-violation", site+"/cache", "after a successful run chunk %d is not valid in the cache (was %d before; 0 valid, 1 missing, 2 invalid): %v", i, cache[i], err)
+				return
+			}
+		}
+	}
+	c.Outcome(expect)
+}
+
+func shortPaths(p []string) []string {
+	var o []string
+	for _, s := range p {
+		if len(s) > 14 {
+			s = s[6:14]
+		}
+		o = append(o, s)
+	}
+	return o
 }
